@@ -2162,6 +2162,7 @@ func (b *bfdSend) Send(bfd *layers.BFD) error {
 	err := gopacket.SerializeLayers(&serBuf, gopacket.SerializeOptions{FixLengths: true},
 		b.scn, bfd)
 	if err != nil {
+		b.dataPlane.packetPool.Put(p)
 		return err
 	}
 
